@@ -87,6 +87,9 @@ func ruleC10(c *Ctx) {
 	R.Rule("C10.3", "Bytes reports the recorded error (and no bytes) iff one is recorded, else the buffer and nil", 6)
 	R.Rule("C10.4", "zero value: in the initial mode every method first writes the default metadata, which equals what Reset writes for the default viewBox and palette; Reset leaves styling mode, no error", 8)
 
+	R.Rule("C10.5", "state invariant used by the other rules: outside drawing mode no drawing operation is pending (drawOp == 0); inductive over all exported methods from every mode", 60)
+	c.checkPendingInvariant(m)
+
 	modeT := c.Named("encode", "mode")
 	mInit, mSty, mDrw := m.modes["modeInitial"], m.modes["modeStyling"], m.modes["modeDrawing"]
 	modeName := map[int64]string{mInit: "initial", mSty: "styling", mDrw: "drawing"}
@@ -180,6 +183,9 @@ func ruleC10(c *Ctx) {
 							preErr = m.errs[en]
 						}
 						fields := map[string]*sym.Term{"mode": modeConst(mode, modeT), "err": preErr}
+						if mode != mDrw {
+							fields["drawOp"] = u8(0) // state invariant C10.5: nothing is pending outside a path
+						}
 						params := map[string]*sym.Term{}
 						if hasAdj {
 							params["adj"] = u8(adj)
